@@ -53,10 +53,12 @@ CHECKS = {
         technique='Lean 4 proof about the signature table and symbol export + correspondence with the real SignatureManager/get_symbols; both-mode atom-vs-table search',
         text='Lean theorems for every signature and every declaration sequence: an atom carries exactly as many arguments as get_symbols reports '
              '(flat arity) for every signature shape; the table is append-only in names, the first declaration of a name wins, concepts that do '
-             'not mention a later concept keep their shape. Universality over inputs comes from the search: every atom occurrence of every '
+             'not mention a later concept keep their shape; C13_fn_arity: the nested arity reported for function-term mode equals the number of '
+             'top-level arguments the function-mode printer (the model of C14) produces for an instance, for every signature whose own attribute '
+             'names are distinct and differ from the concepts it inherits from (decidable; evaluated on every real table). Universality over inputs comes from the search: every atom occurrence of every '
              'compiled corpus / wide-generator program is checked against the reported arity in both printing modes.',
         note='Trusted: Lean kernel; correspondence harness (500 declaration sequences through the real add_signature and symbol conversion per quick '
-             'run); clingo.ast for atom extraction. A genuine defect was repaired by fix: commit (get_symbols guard). Partial: the equality of emitted '
+             'run); clingo.ast for atom extraction. A genuine defect was repaired by fix: commit (get_symbols guard); F34 (one-value definition of a concept with several attributes) is a known finding. Partial: the equality of emitted '
              'arity and table arity for ALL inputs rests on the sampled search, the theorem covers the table and conversion functions.',
         design='DESIGN.md §6 C13'),
     'C07': dict(
